@@ -20,7 +20,7 @@ None == "None"
 \* dep: one HTMLDependency object displayed every time; depeq: an equal but distinct dependency each time;
 \* false (False), zerof (0.0), emptyhtml (HTML("")): falsy but valid; emptydict ({}), emptyset (set()): falsy and unsupported
 Vals == {"str", "num", "zero", "empty", "none", "dots", "repr", "tag", "tfy", "list", "bad", "badlist",
-         "dep", "depeq", "false", "zerof", "emptyhtml", "emptydict", "emptyset"}
+         "dep", "depeq", "false", "zerof", "emptyhtml", "emptydict", "emptyset", "reprtuple", "reprstr"}
 BadVals == {"bad", "badlist", "emptydict", "emptyset"}
 
 \* what append(value) stores, after the wrapper's case analysis (wrap_displayhook_handler)
@@ -29,7 +29,8 @@ Stored(v) ==
     [] v = "num"   -> <<"s:7">>
     [] v = "zero"  -> <<"s:0">>
     [] v = "empty" -> <<"s:">>
-    [] v = "repr"  -> <<"h:<r>">>          \* _repr_html_() result kept as HTML
+    [] v \in {"repr", "reprtuple", "reprstr"} -> <<"h:<r>">>   \* _repr_html_() result kept as HTML, also when the
+                                                              \* object is a tuple / str subclass as well
     [] v = "tag"   -> <<"t:other">>
     [] v = "tfy"   -> <<"f:obj">>
     [] v = "list"  -> <<"s:a", "s:1">>
